@@ -72,23 +72,38 @@ def _cached_file(kind, k, dom, nT, nP):
     return p
 
 
-def _dir_files(dirset):
+def _dir_files(dirset, koff=0):
     """file name -> function index k, for the documented pressure-base files of the directory and the
-    decoys that must never be picked (volume-base files, qha's P-T layout, prefixed names)."""
+    decoys that must never be picked (volume-base files, qha's P-T layout, prefixed names).  `koff`
+    shifts every index: the same file names with different tables (another directory, a rewritten table)."""
     docs = R.documented_tp_files(IJ_SMALL if dirset == "small" else None)
-    files = OrderedDict((fname, KIDX[var]) for var, fname in docs)
+    files = OrderedDict((fname, KIDX[var] + koff) for var, fname in docs)
     for n, fname in enumerate(R.documented_tv_files()):
-        files[fname] = 200 + n
-    files["c11s_pt_gpa.txt"] = 300
-    files["xc11s_tp_gpa.txt"] = 301
-    files["tp_c11s_gpa.txt"] = 302
+        files[fname] = 200 + n + koff
+    files["c11s_pt_gpa.txt"] = 300 + koff
+    files["xc11s_tp_gpa.txt"] = 301 + koff
+    files["tp_c11s_gpa.txt"] = 302 + koff
     return files
 
 
-def _populate(d, kind, dom, nT, nP, dirset, writer="ref", qha_vars=()):
+def _put_table(path, kind, k, dom, nT, nP):
+    if os.path.lexists(path):
+        os.remove(path)          # never write through a hard link into the shared cache
+    src = _cached_file(kind, k, dom, nT, nP)
+    if src is not None:
+        try:
+            os.link(src, path)
+            return
+        except OSError:
+            pass
+    with open(path, "w") as fp:
+        fp.write(_text(kind, k, dom, nT, nP))
+
+
+def _populate(d, kind, dom, nT, nP, dirset, writer="ref", qha_vars=(), koff=0):
     """Fill directory d; with writer == "qha" the tables of `qha_vars` are written by qha's own
     save_x_tp (trusted base, DESIGN section 5) instead of the reference writer."""
-    files = _dir_files(dirset)
+    files = _dir_files(dirset, koff)
     by_qha = {FNAME[v] for v in qha_vars} if writer == "qha" else set()
     if by_qha:
         from qha.basic_io.out import save_x_tp
@@ -100,15 +115,7 @@ def _populate(d, kind, dom, nT, nP, dirset, writer="ref", qha_vars=()):
             Z = R.Fn(kind, k, dom).table(Tg, Pg)
             save_x_tp(np.vstack([Z, np.zeros((4, nP))]), Tpad, np.array(Pg), np.array(Pg), path)
             continue
-        src = _cached_file(kind, k, dom, nT, nP)
-        if src is not None:
-            try:
-                os.link(src, path)
-                continue
-            except OSError:
-                pass
-        with open(path, "w") as fp:
-            fp.write(_text(kind, k, dom, nT, nP))
+        _put_table(path, kind, k, dom, nT, nP)
     with open(os.path.join(d, "settings.yaml"), "w") as fp:
         fp.write("# decoy\n")
     return files
@@ -184,8 +191,15 @@ def _fmt(y):
     return repr(float(y))
 
 
-def _classify_extract(tokens, d, var, axis, dirvars):
+def _classify_extract(tokens, d, var, axis, dirvars, elsewhere=()):
     """Which wrong thing was printed (for the signature)."""
+    for label, d2 in elsewhere:
+        T2, P2, Z2 = _entries(d2, var)
+        l2 = Z2 if axis == "T" else Z2.T
+        if len(tokens) == l2.shape[1]:
+            for r in range(l2.shape[0]):
+                if _close(tokens, l2[r]):
+                    return label, r
     T, P, Z = _entries(d, var)
     lines = Z if axis == "T" else Z.T
     other = Z.T if axis == "T" else Z
@@ -209,9 +223,9 @@ def _classify_extract(tokens, d, var, axis, dirvars):
     return "unexplained", None
 
 
-def _check_extract_output(out, d, variables, axis, want, hide, reqname, viol, dirvars):
+def _check_extract_output(out, d, variables, axis, want, hide, reqname, viol, dirvars, tag="c19:extract", elsewhere=()):
     """Compare one stdout table with the statement; returns the number of value columns compared."""
-    tagp = f"c19:extract:{axis}"
+    tagp = f"{tag}:{axis}"
     try:
         tab = R.parse_stdout(out, header=not hide, has_index=True)
     except ValueError as e:
@@ -239,7 +253,7 @@ def _check_extract_output(out, d, variables, axis, want, hide, reqname, viol, di
         n += 1
         if len(col) == len(exp) and _close(col, exp):
             continue
-        cls, which = _classify_extract(col, d, var, axis, dirvars)
+        cls, which = _classify_extract(col, d, var, axis, dirvars, elsewhere)
         viol.append(V(f"{tagp}:{reqname}:{cls}",
                       f"{var}: printed {col[:3]}.. expected {axis}-index {want}: {['%.6f' % x for x in exp[:3]]}..; "
                       f"printed values are {cls} {which}"))
@@ -337,14 +351,36 @@ def run_unknown(case):
 
 # --------------------------------------------------------------------------- geotherm
 
+_HELP = ["--t-col", "pres", "--p-col", "temp"]          # explicit options used as their help texts say
+# a geotherm layout = ([(column name, role)], extra options); roles: P, T = the geotherm's pressure and
+# temperature; D, n = passthrough; p, t = passthrough columns whose *names* differ from the P / T
+# column's only by letter case (model time `t`, density-like `p`), with values far outside the table.
 LAYOUTS = {
-    "L0": (["P", "T", "D"], []),
-    "L1": (["D", "T", "n", "P"], []),
-    "L2": (["depth", "pres", "temp"], ["--t-col", "pres", "--p-col", "temp"]),   # as the help texts say
-    "LN": (["depth", "pres", "temp"], ["--t-col", "temp", "--p-col", "pres"]),   # as the option names say
+    "L0": ([("P", "P"), ("T", "T"), ("D", "D")], []),
+    "L1": ([("D", "D"), ("T", "T"), ("n", "n"), ("P", "P")], []),
+    "L2": ([("depth", "D"), ("pres", "P"), ("temp", "T")], _HELP),
+    "L3": ([("t", "t"), ("D", "D"), ("P", "P"), ("T", "T"), ("p", "p")], []),
+    "LN": ([("depth", "D"), ("pres", "P"), ("temp", "T")], ["--t-col", "temp", "--p-col", "pres"]),   # as the option *names* say
 }
-ROLE = {"P": "P", "pres": "P", "T": "T", "temp": "T", "D": "D", "depth": "D", "n": "n"}
+HEADER_FAMILIES = OrderedDict([
+    ("PTDt", ([("P", "P"), ("T", "T"), ("D", "D"), ("t", "t")], [])),
+    ("PTpt", ([("P", "P"), ("T", "T"), ("p", "p"), ("t", "t")], [])),
+    ("pres-temp-depth-TEMP", ([("pres", "P"), ("temp", "T"), ("depth", "D"), ("TEMP", "t")], _HELP)),
+    ("pres-temp-PRES-TEMP", ([("pres", "P"), ("temp", "T"), ("PRES", "p"), ("TEMP", "t")], _HELP)),
+    ("PRES-TEMP-pres-temp", ([("PRES", "P"), ("TEMP", "T"), ("pres", "p"), ("temp", "t")],
+                             ["--t-col", "PRES", "--p-col", "TEMP"])),
+])
 OFFS = [(0.26, 0.74), (0.5, 0.5), (0.74, 0.26), (0.5, 0.13), (0.9, 0.5)]
+
+
+def _layout(case):
+    if "family" in case:
+        spec, opts = HEADER_FAMILIES[case["family"]]
+        if sorted(case["perm"]) != list(range(len(spec))):
+            raise HarnessError(f"bad permutation {case['perm']}")
+        return [spec[i] for i in case["perm"]], list(opts)
+    spec, opts = LAYOUTS[case["layout"]]
+    return list(spec), list(opts)
 
 
 def geotherm_path(dom, kind, npts):
@@ -375,12 +411,15 @@ def geotherm_path(dom, kind, npts):
     return pts
 
 
-def _geotherm_rows(cols, pts):
-    rows = []
+def _geotherm_rows(spec, pts):
+    """Rows of the geotherm file and, per point, the value of every role."""
+    rows, byrole = [], []
     for i, (P, T, _) in enumerate(pts):
-        vals = {"P": P, "T": T, "D": round(6371.0 - 57.25 * i - 0.125 * i * i, 3), "n": 7 * i + 3}
-        rows.append([vals[ROLE[c]] for c in cols])
-    return rows
+        vals = {"P": P, "T": T, "D": round(6371.0 - 57.25 * i - 0.125 * i * i, 3), "n": 7 * i + 3,
+                "t": -1000.5 - 3.0 * i, "p": 50000.25 + 7.0 * i}     # clamp to opposite edges: told apart
+        rows.append([vals[role] for _, role in spec])
+        byrole.append(vals)
+    return rows, byrole
 
 
 def _is_node(x, lo, hi, n):
@@ -388,117 +427,142 @@ def _is_node(x, lo, hi, n):
     return abs(s - round(s)) < 1e-9
 
 
+def _check_geotherm(out, d, kind, dom, nT, nP, variables, spec, rows, byrole, pts, hide, viol, st,
+                    koff=0, stale_koffs=(), finest=False, probe=False, tag="c19:geotherm"):
+    """Compare one stdout table of extract-geotherm with the statement, for tables of function `kind`
+    (index KIDX[var] + koff) on the nT x nP grid in directory d.  Returns (errors at the between-node
+    points per (variable, point), print floors) or None when the output could not be compared."""
+    lvl = f"{nT}x{nP}"
+    cols = [n for n, _ in spec]
+    roles = [r for _, r in spec]
+    files = set(os.listdir(d))
+    try:
+        tab = R.parse_stdout(out, header=not hide, has_index=False)
+    except ValueError as e:
+        viol.append(V(f"{tag}:unparsable", f"[{lvl}] stdout is not a numeric table ({e}): {out[:200]!r}"))
+        return None
+    if not hide and tab["names"] != cols + variables:
+        viol.append(V(f"{tag}:columns", f"[{lvl}] header {tab['names']} != geotherm columns + variables {cols + variables}"))
+    if len(tab["cols"]) != len(cols) + len(variables):
+        viol.append(V(f"{tag}:column-count", f"[{lvl}] {len(tab['cols'])} columns, expected {len(cols)}+{len(variables)}"))
+        return None
+    if tab["nrow"] != len(pts):
+        viol.append(V(f"{tag}:row-count", f"[{lvl}] {tab['nrow']} rows for {len(pts)} geotherm points"))
+        return None
+    for c, (name, role) in enumerate(spec):
+        if not _close(tab["cols"][c], [r[c] for r in rows]):
+            viol.append(V(f"{tag}:passthrough:{role}",
+                          f"[{lvl}] geotherm column {c} '{name}' printed {tab['cols'][c][:3]}.. was {[r[c] for r in rows][:3]}.."))
+    Tg, Pg = R.grid(dom[0], dom[1], nT), R.grid(dom[2], dom[3], nP)
+    hT, hP = Tg[1] - Tg[0], Pg[1] - Pg[0]
+
+    def cT(x):      # arguments outside the table are clamped to its edge (FITPACK)
+        return min(max(x, dom[0]), dom[1])
+
+    def cP(x):
+        return min(max(x, dom[2]), dom[3])
+    level_err, floors = [], []
+    for vi, var in enumerate(variables):
+        fn = R.Fn(kind, KIDX[var] + koff, dom)
+        scale = float(np.max(np.abs(fn.table(Tg, Pg))))
+        bound = R.spline_bound(fn, hT, hP) if kind == "smooth" else 0.0
+        Tw, Pw, Zw = _entries(d, var)
+        col = tab["cols"][len(cols) + vi]
+        for (P, T, on_node), vals, tok in zip(pts, byrole, col):
+            val, hu = float(tok), R.half_ulp(tok) * (1 + 1e-9)
+            g = float(fn(T, P))
+            err = abs(val - g)
+            node = _is_node(T, dom[0], dom[1], nT) and _is_node(P, dom[2], dom[3], nP)
+            if node != on_node:
+                raise HarnessError(f"path point (P={P}, T={T}) node flag {on_node} but grid {lvl} says {node}")
+            if probe:
+                g_sw = float(fn(cT(P), cP(T)))
+                near_sw = abs(val - g_sw) <= max(4 * bound, 1e-6 * scale) + hu
+                near_st = err <= max(4 * bound, 1e-6 * scale) + hu
+                st["swapped"] += near_sw and not near_st
+                st["straight"] += near_st and not near_sw
+                continue
+
+            def cls():
+                # a candidate explanation must reproduce the printed number as well as the right
+                # answer would have been reproduced
+                tolc = bound + RTOL * scale + hu
+                pairs = [("P", "T")] + [(a, b) for a in roles for b in roles if (a, b) not in (("T", "P"), ("P", "T"))]
+                for a, b in pairs:       # column with role a used as temperature, role b as pressure
+                    if abs(val - float(fn(cT(vals[a]), cP(vals[b])))) <= tolc:
+                        return "transposed" if (a, b) == ("P", "T") else f"wrong-columns:T<-{a},P<-{b}"
+                for k2, lab in stale_koffs:
+                    if abs(val - float(R.Fn(kind, KIDX[var] + k2, dom)(T, P))) <= tolc:
+                        return lab
+                for v2 in (v for v, f in ALLDOC if f in files and v != var):
+                    if abs(val - float(R.Fn(kind, KIDX[v2] + koff, dom)(T, P))) <= tolc:
+                        return "other-variable"
+                return "unexplained"
+            if node:
+                st["nodes"] += 1
+                entry = float(Zw[int(round((T - dom[0]) / hT)), int(round((P - dom[2]) / hP))])
+                if not abs(val - entry) <= RTOL * abs(entry) + hu:
+                    viol.append(V(f"{tag}:node-value:{cls()}",
+                                  f"[{lvl}] {var} at node (P={P}, T={T}): printed {tok}, table entry {entry!r}"))
+                continue
+            st["between"] += 1
+            level_err.append(err)
+            if kind == "poly3":
+                if not err <= RTOL * scale + hu:
+                    viol.append(V(f"{tag}:bicubic-not-exact:{cls()}",
+                                  f"[{lvl}] {var} at (P={P}, T={T}): printed {tok}, bicubic polynomial value {g!r} (err {err:.3g})"))
+            else:
+                st["ratio_bound"] = max(st["ratio_bound"], err / bound)
+                if not err <= bound + RTOL * scale + hu:
+                    viol.append(V(f"{tag}:spline-bound:{cls()}",
+                                  f"[{lvl}] {var} at (P={P}, T={T}): printed {tok}, g={g!r}, err {err:.3g} > cubic-spline bound {bound:.3g}"))
+                if finest:
+                    cv = R.cell_variation(Tw, Pw, Zw, T, P)
+                    st["ratio_cell"] = max(st["ratio_cell"], err / (0.25 * cv))
+                    if not err <= 0.25 * cv + RTOL * scale + hu:
+                        viol.append(V(f"{tag}:cell-tolerance:{cls()}",
+                                      f"[{lvl}] {var} at (P={P}, T={T}): err {err:.3g} > 25% of local cell variation {cv:.3g}"))
+        floors.append(RTOL * scale + R.half_ulp(col[0]))
+    return level_err, floors
+
+
+def _new_state():
+    return {"ratio_bound": 0.0, "ratio_cell": 0.0, "nodes": 0, "between": 0, "swapped": 0, "straight": 0}
+
+
 def run_geotherm(case):
     dom = RANGES[case["range"]]
     kind = case["fn"]
     variables = list(VARSETS[case["nvars"]])
-    cols, opts = LAYOUTS[case["layout"]]
+    spec, opts = _layout(case)
     hide = bool(case.get("hide"))
     pts = geotherm_path(dom, case["path"], case["npts"])
-    rows = _geotherm_rows(cols, pts)
+    rows, byrole = _geotherm_rows(spec, pts)
     levels = [GRIDS[g] for g in case["grids"]]
-    probe = case["layout"] == "LN"
-    viol, info = [], {"ratio_bound": 0.0, "ratio_cell": 0.0, "errs": []}
-    errs = []      # per level: list of |value - g| per (point, variable)
+    probe = case.get("layout") == "LN"
+    viol, st = [], _new_state()
+    errs = []      # per level: list of |value - g| per (variable, between-node point)
     floors = []
-    nodes_checked = between_checked = 0
-    swapped_seen = straight_seen = 0
     for (nT, nP) in levels:
         d = tempfile.mkdtemp(prefix="c19-", dir="/dev/shm")
         try:
-            files = _populate(d, kind, dom, nT, nP, "small")
+            _populate(d, kind, dom, nT, nP, "small")
             with open(os.path.join(d, "geo.dat"), "w") as fp:
-                fp.write(R.format_geotherm(cols, rows))
+                fp.write(R.format_geotherm([n for n, _ in spec], rows))
             args = ["extract-geotherm", "-g", "geo.dat", "-v", ",".join(variables)] + opts + (["-h"] if hide else [])
             code, exc, out = _invoke(d, args)
-            lvl = f"{nT}x{nP}"
             if code != 0 or exc is not None:
-                viol.append(V(f"c19:geotherm:crash:{type(exc).__name__}", f"{' '.join(args)} [{lvl}] -> exit {code}, {exc!r}"))
+                viol.append(V(f"c19:geotherm:crash:{type(exc).__name__}", f"{' '.join(args)} [{nT}x{nP}] -> exit {code}, {exc!r}"))
                 errs.append(None)
                 continue
-            try:
-                tab = R.parse_stdout(out, header=not hide, has_index=False)
-            except ValueError as e:
-                viol.append(V("c19:geotherm:unparsable", f"[{lvl}] stdout is not a numeric table ({e}): {out[:200]!r}"))
-                errs.append(None)
-                continue
-            if not hide and tab["names"] != cols + variables:
-                viol.append(V("c19:geotherm:columns", f"[{lvl}] header {tab['names']} != geotherm columns + variables {cols + variables}"))
-            if len(tab["cols"]) != len(cols) + len(variables):
-                viol.append(V("c19:geotherm:column-count", f"[{lvl}] {len(tab['cols'])} columns, expected {len(cols)}+{len(variables)}"))
-                errs.append(None)
-                continue
-            if tab["nrow"] != len(pts):
-                viol.append(V("c19:geotherm:row-count", f"[{lvl}] {tab['nrow']} rows for {len(pts)} geotherm points"))
-                errs.append(None)
-                continue
-            for c, name in enumerate(cols):
-                if not _close(tab["cols"][c], [r[c] for r in rows]):
-                    viol.append(V(f"c19:geotherm:passthrough:{ROLE[name]}",
-                                  f"[{lvl}] geotherm column {c} '{name}' printed {tab['cols'][c][:3]}.. was {[r[c] for r in rows][:3]}.."))
-            Tg, Pg = R.grid(dom[0], dom[1], nT), R.grid(dom[2], dom[3], nP)
-            hT, hP = Tg[1] - Tg[0], Pg[1] - Pg[0]
-            level_err = []
-            for vi, var in enumerate(variables):
-                fn = R.Fn(kind, KIDX[var], dom)
-                scale = float(np.max(np.abs(fn.table(Tg, Pg))))
-                bound = R.spline_bound(fn, hT, hP) if kind == "smooth" else 0.0
-                Tw, Pw, Zw = _entries(d, var)
-                col = tab["cols"][len(cols) + vi]
-                for (P, T, on_node), tok in zip(pts, col):
-                    val, hu = float(tok), R.half_ulp(tok) * (1 + 1e-9)
-                    g = float(fn(T, P))
-                    err = abs(val - g)
-                    # what a transposed spline call returns (arguments clamped to the table, as FITPACK does)
-                    g_sw = float(fn(min(max(P, dom[0]), dom[1]), min(max(T, dom[2]), dom[3])))
-                    node = _is_node(T, dom[0], dom[1], nT) and _is_node(P, dom[2], dom[3], nP)
-                    if node != on_node:
-                        raise HarnessError(f"path point (P={P}, T={T}) node flag {on_node} but grid {lvl} says {node}")
-                    if probe:
-                        near_sw = abs(val - g_sw) <= max(4 * bound, 1e-6 * scale) + hu
-                        near_st = err <= max(4 * bound, 1e-6 * scale) + hu
-                        swapped_seen += near_sw and not near_st
-                        straight_seen += near_st and not near_sw
-                        continue
-
-                    def cls():
-                        # a candidate explanation must reproduce the printed number as well as the right
-                        # answer would have been reproduced
-                        tolc = bound + RTOL * scale + hu
-                        if abs(val - g_sw) <= tolc:
-                            return "transposed"
-                        for v2 in (v for v, f in ALLDOC if f in files and v != var):
-                            if abs(val - float(R.Fn(kind, KIDX[v2], dom)(T, P))) <= tolc:
-                                return "other-variable"
-                        return "unexplained"
-                    if node:
-                        nodes_checked += 1
-                        entry = float(Zw[int(round((T - dom[0]) / hT)), int(round((P - dom[2]) / hP))])
-                        if not abs(val - entry) <= RTOL * abs(entry) + hu:
-                            viol.append(V(f"c19:geotherm:node-value:{cls()}",
-                                          f"[{lvl}] {var} at node (P={P}, T={T}): printed {tok}, table entry {entry!r}"))
-                        continue
-                    between_checked += 1
-                    level_err.append(err)
-                    if kind == "poly3":
-                        if not err <= RTOL * scale + hu:
-                            viol.append(V(f"c19:geotherm:bicubic-not-exact:{cls()}",
-                                          f"[{lvl}] {var} at (P={P}, T={T}): printed {tok}, bicubic polynomial value {g!r} (err {err:.3g})"))
-                    else:
-                        info["ratio_bound"] = max(info["ratio_bound"], err / bound)
-                        if not err <= bound + RTOL * scale + hu:
-                            viol.append(V(f"c19:geotherm:spline-bound:{cls()}",
-                                          f"[{lvl}] {var} at (P={P}, T={T}): printed {tok}, g={g!r}, err {err:.3g} > cubic-spline bound {bound:.3g}"))
-                        if (nT, nP) == levels[-1]:
-                            cv = R.cell_variation(Tw, Pw, Zw, T, P)
-                            info["ratio_cell"] = max(info["ratio_cell"], err / (0.25 * cv))
-                            if not err <= 0.25 * cv + RTOL * scale + hu:
-                                viol.append(V(f"c19:geotherm:cell-tolerance:{cls()}",
-                                              f"[{lvl}] {var} at (P={P}, T={T}): err {err:.3g} > 25% of local cell variation {cv:.3g}"))
-                floors.append(RTOL * scale + R.half_ulp(col[0]))
-            errs.append(level_err)
+            r = _check_geotherm(out, d, kind, dom, nT, nP, variables, spec, rows, byrole, pts, hide, viol, st,
+                                finest=(nT, nP) == levels[-1], probe=probe)
+            errs.append(None if r is None else r[0])
+            if r is not None:
+                floors += r[1]
         finally:
             shutil.rmtree(d, ignore_errors=True)
+    info = {"ratio_bound": st["ratio_bound"], "ratio_cell": st["ratio_cell"], "errs": []}
     # convergence along the ladder (generic smooth function, points between nodes)
     if kind == "smooth" and len(levels) == 3 and not probe and all(e is not None for e in errs) and errs[0]:
         # "Converges" is a statement about the error of the interpolant, not about its value at one
@@ -519,14 +583,119 @@ def run_geotherm(case):
                                       f"{var}: largest error over the path does not decrease from {LADDER[a]} to "
                                       f"{LADDER[b]} nodes per axis: {ea:.3g} -> {eb:.3g} (print floor {floor:.2g})"))
     if probe:
-        outcome = ("option-names:" + ("values-as-if-swapped" if swapped_seen and not straight_seen else
-                                      "values-correct" if straight_seen and not swapped_seen else
-                                      f"mixed({swapped_seen},{straight_seen})"))
+        sw, stt = st["swapped"], st["straight"]
+        outcome = ("option-names:" + ("values-as-if-swapped" if sw and not stt else
+                                      "values-correct" if stt and not sw else f"mixed({sw},{stt})"))
         return {"viol": viol, "outcome": outcome, "nontrivial": False}
-    outcome = f"geotherm:{kind}:{case['path']}:" + ("ok" if not viol else "bad")
-    res = {"viol": _cap(viol), "outcome": outcome, "nontrivial": nodes_checked + between_checked > 0}
+    lay = case.get("family") or case.get("layout")
+    outcome = f"geotherm:{kind}:{case['path']}:{lay}:" + ("ok" if not viol else "bad")
+    res = {"viol": _cap(viol), "outcome": outcome, "nontrivial": st["nodes"] + st["between"] > 0}
     res.update(info)
     return res
+
+
+# --------------------------------------------------------------------------- mode B: sequences in one process
+
+SEQ_VARS = ["c11s", "v"]
+SEQ_DIRS = {"A": ("81x41", 0), "B": ("41x41", 60)}      # same file names, different tables (and grids)
+SEQ_OPS_QUICK = ["xA-T", "xB-P", "wA", "gA", "gB"]
+SEQ_OPS = ["xA-T", "xA-P", "xB-T", "xB-P", "wA", "gA", "gB"]
+
+
+def run_sequence(case):
+    """A history of commands in ONE process: extract / extract-geotherm in directory A and in directory
+    B (same variable names, different tables), and rewriting A's tables between commands.  Every output
+    is compared with the tables on disk at that moment in the command's own directory."""
+    ops = list(case["ops"])
+    dom = RANGES["R1"]
+    kind = "poly3"
+    # Every history starts from freshly imported command modules (as history_bfs replays a history on
+    # fresh objects), so the verdict depends on the history alone and not on what the worker ran before.
+    import sys
+    for m in [k for k in sys.modules if k == "cij.cli" or k.startswith("cij.cli.")]:
+        del sys.modules[m]
+    root = tempfile.mkdtemp(prefix="c19-seq-", dir="/dev/shm")
+    viol, st, outcomes = [], _new_state(), []
+    compared = 0
+    try:
+        dirs, koff, grids = {}, {}, {}
+        for name, (g, k0) in SEQ_DIRS.items():
+            dirs[name] = os.path.join(root, name)
+            os.makedirs(dirs[name])
+            grids[name], koff[name] = GRIDS[g], k0
+            _populate(dirs[name], kind, dom, GRIDS[g][0], GRIDS[g][1], "small", koff=k0)
+        dirvars = [v for v, f in ALLDOC if f in _dir_files("small")]
+        stash = []           # (label, directory) of A's tables before each rewrite
+        spec, _ = LAYOUTS["L0"]
+        pts = geotherm_path(dom, "mixed", 3)
+        rows, byrole = _geotherm_rows(spec, pts)
+        for name in dirs:
+            with open(os.path.join(dirs[name], "geo.dat"), "w") as fp:
+                fp.write(R.format_geotherm([n for n, _ in spec], rows))
+        nwrites = 0
+        # table versions (directory, koff) read so far in THIS history, per command (each has its own
+        # loader): a stale answer is attributed to the history only if the history read that version;
+        # otherwise it can only come from process state older than the case (another case in the worker).
+        loaded = {"x": set(), "g": set()}
+
+        def versions(fam, name):
+            other = [n for n in dirs if n != name][0]
+            cand = [("other-directory", dirs[other], koff[other], (other, koff[other]))]
+            if name == "A":
+                cand += [("before-rewrite", p_, k_, ("A", k_)) for _, p_, k_ in stash]
+            else:
+                cand += [("other-directory-before-rewrite", p_, k_, ("A", k_)) for _, p_, k_ in stash]
+            return [(("stale:" if ver in loaded[fam] else "state-older-than-this-history:") + lab, p_, k_)
+                    for lab, p_, k_, ver in cand if k_ != koff[name]]
+        for step, op in enumerate(ops):
+            hist = "after " + (" ".join(ops[:step]) or "nothing")
+            if op == "wA":
+                old = os.path.join(root, f"A-before-rewrite-{nwrites}")
+                os.makedirs(old)
+                for var in SEQ_VARS:
+                    shutil.copy(os.path.join(dirs["A"], FNAME[var]), os.path.join(old, FNAME[var]))
+                stash.append(("before-rewrite", old, koff["A"]))
+                nwrites += 1
+                koff["A"] = 60 + 60 * nwrites + 60       # 180, 240, ...: never A's or B's earlier tables
+                for var in SEQ_VARS:
+                    _put_table(os.path.join(dirs["A"], FNAME[var]), kind, KIDX[var] + koff["A"], dom, *grids["A"])
+                outcomes.append("w")
+                continue
+            name = op[1]
+            d = dirs[name]
+            nT, nP = grids[name]
+            nv = len(viol)
+            if op[0] == "x":
+                axis = op[-1]
+                grid = R.grid(dom[0], dom[1], nT) if axis == "T" else R.grid(dom[2], dom[3], nP)
+                y, want = _request(grid, {"kind": "mid+", "pos": "inner", "inv_eps": 8})
+                args = ["extract", "-v", ",".join(SEQ_VARS), "-" + axis, _fmt(y)]
+                code, exc, out = _invoke(d, args)
+                if code != 0 or exc is not None:
+                    viol.append(V(f"c19:sequence:extract:crash:{type(exc).__name__}", f"step {step} {op} {hist}: exit {code}, {exc!r}"))
+                    continue
+                elsewhere = [(lab, p_) for lab, p_, _ in versions("x", name)]
+                compared += _check_extract_output(out, d, SEQ_VARS, axis, want, False, "mid+", viol, dirvars,
+                                                  tag="c19:sequence:extract", elsewhere=elsewhere)
+            elif op[0] == "g":
+                args = ["extract-geotherm", "-g", "geo.dat", "-v", ",".join(SEQ_VARS)]
+                code, exc, out = _invoke(d, args)
+                if code != 0 or exc is not None:
+                    viol.append(V(f"c19:sequence:geotherm:crash:{type(exc).__name__}", f"step {step} {op} {hist}: exit {code}, {exc!r}"))
+                    continue
+                r = _check_geotherm(out, d, kind, dom, nT, nP, SEQ_VARS, spec, rows, byrole, pts, False, viol, st,
+                                    koff=koff[name], stale_koffs=[(k_, lab) for lab, _, k_ in versions("g", name)],
+                                    tag="c19:sequence:geotherm")
+                compared += 0 if r is None else len(SEQ_VARS)
+            else:
+                raise HarnessError(f"unknown operation {op}")
+            for v in viol[nv:]:
+                v["msg"] = f"step {step} ({op}, {hist}): " + v["msg"]
+            loaded[op[0]].add((name, koff[name]))
+            outcomes.append(op[0] + ("!" if len(viol) > nv else ""))
+    finally:
+        shutil.rmtree(root, ignore_errors=True)
+    return {"viol": _cap(viol), "outcome": "sequence:" + "".join(outcomes), "nontrivial": compared > 0}
 
 
 def run_case(case):
@@ -537,6 +706,8 @@ def run_case(case):
         return run_unknown(case)
     if kind == "geotherm":
         return run_geotherm(case)
+    if kind == "sequence":
+        return run_sequence(case)
     raise HarnessError(f"unknown case kind {kind}")
 
 
@@ -609,10 +780,40 @@ def geotherm_cases(quick):
             for path in ("nodes", "between", "mixed"):
                 for npts in (1, 3, 50):
                     for nv in (1, 2, 5):
-                        for layout in ("L0", "L1", "L2"):
+                        # quick: the header layouts are varied on the bicubic tables only (one run per case); the
+                        # three-level ladder keeps the default layout
+                        for layout in (("L0", "L1", "L2", "L3") if not quick else ("L0",) if fn == "smooth" else ("L0", "L1", "L2")):
                             for hide in ((False,) if quick and layout != "L0" else (False, True)):
                                 cases.append({"kind": "geotherm", "range": rng, "fn": fn, "grids": grids, "path": path,
                                               "npts": npts, "nvars": nv, "layout": layout, "hide": hide})
+    return cases
+
+
+def header_order_cases(quick):
+    """Every order of the columns of each 4-column geotherm header family (5 x 24): the geotherm's P and T
+    columns plus passthrough columns, among them columns whose names differ from the P / T column's only
+    by letter case and whose values lie far outside the table."""
+    import itertools
+    cases = []
+    for fam, (spec, _) in HEADER_FAMILIES.items():
+        for perm in itertools.permutations(range(len(spec))):
+            for rng in ("R1", "R2"):
+                for path, npts in ((("mixed", 3),) if quick else (("mixed", 3), ("nodes", 50), ("between", 50), ("mixed", 1))):
+                    cases.append({"kind": "geotherm", "range": rng, "fn": "poly3", "grids": ["41x41"], "path": path,
+                                  "npts": npts, "nvars": 2, "family": fam, "perm": list(perm), "hide": False})
+    return cases
+
+
+def sequence_cases(quick):
+    """Mode B: all command histories of length 2..3 (thorough: 2..4 over the larger alphabet)."""
+    import itertools
+    ops, depth = (SEQ_OPS_QUICK, 3) if quick else (SEQ_OPS, 4)
+    cases = []
+    for L in range(2, depth + 1):
+        for seq in itertools.product(ops, repeat=L):
+            if all(o == "wA" for o in seq):
+                continue
+            cases.append({"kind": "sequence", "ops": list(seq)})
     return cases
 
 
@@ -632,7 +833,12 @@ def explore(ctx):
         "midpoint of each whole axis. geotherm: {R1: T 0..2000/P 0..40, "
         "R2: T 0..40/P 0..40} x {bicubic polynomial on 41x41 and 81x41, generic smooth function on the ladder 21/41/81} x "
         "{nodes only, between nodes, mixed} x {1,3,50 points} x {1,2,5 variables} x {P,T,D default; D,T,n,P default; "
-        "depth,pres,temp with explicit --t-col/--p-col as the help texts say} x {header, -h}. Non-trivial = at least one "
+        "depth,pres,temp with explicit --t-col/--p-col as the help texts say; thorough: t,D,P,T,p} x {header, -h}; all 24 column "
+        "orders of each of 5 four-column headers {P,T,D,t}, {P,T,p,t}, {pres,temp,depth,TEMP}, {pres,temp,PRES,TEMP}, "
+        "{PRES,TEMP,pres,temp} (passthrough columns whose names differ from the P/T column's only by letter case, values far "
+        "outside the table). Mode B: every history of length 2..3 (thorough 2..4) over {extract in directory A, extract in "
+        "directory B with the same variable names and other tables, rewrite A's tables, extract-geotherm in A, in B} run in one "
+        "process, each output compared with the tables on disk at that moment. Non-trivial = at least one "
         "printed value column was compared against a table whose rows, columns and variables are pairwise distinct "
         "(a wrong row/column/axis/file changes the numbers); ties and refusals are trivial.")
     ctx.assumptions = [
@@ -667,6 +873,8 @@ def _explore(ctx, q):
         res = ctx.run(MOD, "run_case", cases, part=part, **kw)
         walls[part] = round(time.time() - t0, 2)
         return res
+    sq = sequence_cases(q)       # first: the workers are fresh, nothing from other cases is in the process yet
+    timed(sq, "sequences-in-one-process", transitions=sum(len(c["ops"]) for c in sq))
     ec = extract_cases(q)
     timed(ec, "extract")
     gc = glob_cases(q)
@@ -680,6 +888,8 @@ def _explore(ctx, q):
     ur = timed(uc, "extract-unknown-names")
     geo = geotherm_cases(q)
     gr = timed(geo, "geotherm")
+    ho = header_order_cases(q)
+    timed(ho, "geotherm-header-orders")
     pr = timed(option_name_probes(), "geotherm-option-name-probe")
     ctx.notes["alphabets"] = {
         "extract": {"grids": 1 if q else 3, "nvars": 3, "axis": 2, "header": 2, "order": 2, "requests": len(extract_requests()),
@@ -687,8 +897,10 @@ def _explore(ctx, q):
         "file_selection": {"documented_names": len(ALLDOC), "files_in_directory": len(_dir_files("full")), "cases": len(gc)},
         "qha_written": len(qc), "unknown_names": len(uc),
         "every_position": {"cases": len(ap), "requests": sum(len(c["reqs"]) for c in ap)},
-        "geotherm": {"ranges": 2, "function_x_grid": 2 if q else 3, "paths": 3, "npts": 3, "nvars": 3, "layouts": 3, "header": 2,
-                     "cases": len(geo)},
+        "geotherm": {"ranges": 2, "function_x_grid": 2 if q else 3, "paths": 3, "npts": 3, "nvars": 3,
+                     "layouts": 3 if q else 4, "header": 2, "cases": len(geo)},
+        "header_orders": {"families": len(HEADER_FAMILIES), "orders_each": 24, "ranges": 2, "paths": 1 if q else 4, "cases": len(ho)},
+        "sequences": {"operations": len(SEQ_OPS_QUICK if q else SEQ_OPS), "lengths": [2, 3] if q else [2, 3, 4], "cases": len(sq)},
     }
     ok = [r for r in gr if not r.get("harness_error")]
     ctx.notes["geotherm_max_error_over_spline_bound"] = max([r.get("ratio_bound", 0.0) for r in ok] or [0.0])
@@ -795,6 +1007,38 @@ def selftest():
                             for n in LADDER + [41]:
                                 isn = _is_node(T, dom[0], dom[1], n) and _is_node(P, dom[2], dom[3], n)
                                 check(isn == on, f"node flag wrong for {(P, T)} at n={n}")
+        # 4b. a wrong choice of geotherm column is visible at every point of the header-order paths, and the
+        #      tables of the sequence part (other directory, rewritten) differ from each other row by row
+        for rng in ("R1", "R2"):
+            dom = RANGES[rng]
+            for fam, (spec, _) in HEADER_FAMILIES.items():
+                check(sorted(r for _, r in spec)[:2] == ["D", "P"] or {"P", "T"} <= {r for _, r in spec}, "family lacks P/T")
+                check(len({n.lower() for n, _ in spec}) < len(spec), f"{fam}: no case-insensitive name collision")
+                for path, npts in (("mixed", 3), ("nodes", 50), ("between", 50), ("mixed", 1)):
+                    pts = geotherm_path(dom, path, npts)
+                    rows, byrole = _geotherm_rows(spec, pts)
+                    fn = R.Fn("poly3", KIDX["v_p"], dom)
+                    visible = {}
+                    for (P, T, _), vals in zip(pts, byrole):
+                        g = float(fn(T, P))
+                        for role in {r for _, r in spec} - {"P", "T"}:
+                            xT, xP = min(max(vals[role], dom[0]), dom[1]), min(max(vals[role], dom[2]), dom[3])
+                            # (a decoy clamped onto the point's own coordinate is the same request: nothing to see)
+                            for what, x, real, other in (("T", xT, T, float(fn(xT, P))), ("P", xP, P, float(fn(T, xP)))):
+                                vis = abs(other - g) > 1e-4 * abs(g)
+                                check(vis or x == real, f"{fam} {rng} {path}{npts}: column '{role}' taken for {what} is invisible at {(P, T)}")
+                                visible[(role, what)] = visible.get((role, what), 0) + vis
+                    check(all(v >= (len(pts) + 1) // 2 for v in visible.values()), f"{fam} {rng} {path}{npts}: a wrong column is visible at too few points {visible}")
+        domA = RANGES["R1"]
+        for var in SEQ_VARS:
+            seen = set()
+            for g_, koffs in (("81x41", (0, 180, 240, 300)), ("41x41", (60,))):
+                for k_ in koffs:
+                    Tg, Pg = R.grid(domA[0], domA[1], GRIDS[g_][0]), R.grid(domA[2], domA[3], GRIDS[g_][1])
+                    Z = np.round(R.Fn("poly3", KIDX[var] + k_, domA).table(Tg, Pg), 5)
+                    rows_ = {tuple(r[:41:2]) for r in Z} | {tuple(c[:41:2]) for c in Z.T}
+                    check(not (rows_ & seen), f"sequence tables of {var} share a row/column (koff {k_})")
+                    seen |= rows_
         # 5. stdout parser, print precision, nearest index
         t = R.parse_stdout("      a     b\n0.0  1.50  -2e+03\n1.0  2.25   nan\n", header=True, has_index=True)
         check(t["names"] == ["a", "b"] and t["labels"] == ["0.0", "1.0"] and t["cols"][1] == ["-2e+03", "nan"], "parse_stdout")
